@@ -11,7 +11,14 @@ RULE = ("messages over every Record_* class (+UnknownRecord, payload-less header
         "suffixes, case variants, labels of 1/62/63/64/65/191/192/200/255/256 bytes, bytes >= 0xC0 and NULs inside labels, "
         "root, trailing/leading/double dots; field values at 0/max/out-of-range; maxSize in {0, 12..full size, 512, 4096, <12}; "
         "every maxSize from 12 to the full size for a few messages (every cut point of the truncation clause); RDATA of 65535/65536 "
-        "bytes; large messages crossing offset 2^14; _EDNSMessage (version None/0/1, 12-bit rCode, sizes around 512) and _OPTHeader "
+        "bytes; large messages crossing offset 2^14; NAMES PLACED AT CHOSEN OFFSETS (about a tenth of the quick cases + 30 corpus cases): "
+        "a filler record without names puts a chosen label of one name - owner name or a name inside RDATA of NS/CNAME/PTR/DNAME/MX/"
+        "AFSDB/SOA/MINFO/RP/TSIG (compressed) or SRV/NAPTR/A6 (uncompressed) - at B+delta, B = 2^14 mostly (the name STRADDLES the "
+        "14-bit limit of a compression pointer: it starts below, a later label / its pointer / its zero octet starts at, just before "
+        "or just after 2^14), also 2^15, 3*2^14, 2^16 and every power of two from 2^8 to 2^13 (each bit of a pointer's offset), "
+        "delta in -40..40 dense around 0 and +12 (header size); the name, its suffixes, case variants and longer names ending in "
+        "them are then used again as owner names and inside RDATA, in the same and later sections, with no limit / a limit that "
+        "fits / a cut near the name; _EDNSMessage (version None/0/1, 12-bit rCode, sizes around 512) and _OPTHeader "
         "with options; mutated/truncated encodings through Message.fromStr; "
         "distinct = (op, record types present, compression used?, truncated?, outcome class)")
 ASSUMES = [
@@ -41,11 +48,15 @@ MANIFEST = {
             "(encode_succeeds; the only failure on well-formed input is struct.error on RDLENGTH, which does occur from 65536 bytes on - "
             "encode_fails_on_oversize_rdata, encode_succeeds_iff), decodes to itself when within "
             "its size limit (names of 1..63-byte labels round-trip at any offset with any dictionary state: pointer chains strictly "
-            "descend, so the visited-set check never fires), and when over the limit is cut to exactly maxSize bytes with TC set "
+            "descend, so the visited-set check never fires; no bound on message size or offsets - a name may lie below, across or "
+            "beyond offset 2^14: name_records_suffixes_at_their_own_offsets / suffix_beyond_2_14_not_recorded / "
+            "fresh_name_records_exactly say that each suffix is recorded at the offset of its own first label and only when that "
+            "offset is below 2^14, two_names_round_trip that a later use of any name with the dictionary left behind reads back), and when over the limit is cut to exactly maxSize bytes with TC set "
             "that decode, without an exception, to the same header and a flat proper prefix of its questions and records (a "
             "name/field/record cut anywhere raises EOFError and nothing else, which parseRecords/Message.decode catch). "
             "unrepresentable_name_refused_message: a label over 63 bytes anywhere in a message makes toStr raise ValueError. "
-            "Model tied to dns.py by differential runs over all record classes and every cut point; round trip, refusal, "
+            "Model tied to dns.py by differential runs over all record classes, every cut point and names placed at chosen offsets "
+            "(straddling 2^14, 2^15, 3*2^14, 2^16; pointer targets in every band below 2^14); round trip, refusal, "
             "truncation-prefix and an independent RFC 1035 reader checked on the real code by the oracle.",
     "note": "trusts Lean kernel, the hand model of dns.py (differentially tied), the Lean RFC 1035 reader standing in for dnspython",
     "technique": "Lean 4 proof (validity relation for compressed names + induction over fields/records/sections; EOFError-at-the-cut "
@@ -198,7 +209,7 @@ def _message(rng, big=False):
 def _full_size(m):
     """size of the untruncated encoding on the real code (None when it cannot be encoded)"""
     try:
-        msg = D.build_message(m)
+        msg = D.build_message(_x(m))
         msg.maxSize = 0
         return len(msg.toStr())
     except Exception:
@@ -254,6 +265,26 @@ def _opt_case(rng):
 def _dec_case(rng):
     """a valid encoding, cut or with a few bytes changed (Message.fromStr on both sides)"""
     m = _message(rng)
+    if rng.random() < 0.06:                      # a message with a name at a chosen offset, damaged near that name / its later uses
+        oc = _offset_case_try(rng, "quick")
+        if oc is not None:
+            try:
+                b = bytearray(_wire(oc["m"]))
+                tail = max(12, len(b) - rng.choice([40, 80, 200]))
+                r = rng.random()
+                if r < 0.3:
+                    b = b[:rng.randint(tail, len(b))]
+                else:
+                    for _ in range(rng.randint(1, 3)):
+                        i = rng.randrange(tail, len(b))
+                        if b[i] >= 0xC0 and i + 1 < len(b) and rng.random() < 0.7:       # a pointer: to the last offsets there are
+                            b[i], b[i + 1] = rng.choice([(0xFF, 0xFF), (0xFF, 0xFE), (0xC0, 0x0C), (0xFF, b[i + 1]), (b[i], 0xFF),
+                                                         (0xE0, 0x00), (b[i] ^ 0x20, b[i + 1])])
+                        else:
+                            b[i] = rng.choice([0, 0xC0, 0xFF, 0xFF, 12, rng.randrange(256)])
+                return {"op": "dec", "data": bytes(b).hex()}
+            except Exception:
+                pass
     try:
         b = bytearray(D.build_message(m).toStr())
     except Exception:
@@ -267,6 +298,262 @@ def _dec_case(rng):
                 i = rng.randrange(len(b))
                 b[i] = rng.choice([0, 0xC0, 0xC0, 0xFF, 12, i & 0xFF, rng.randrange(256)])
     return {"op": "dec", "data": bytes(b).hex()}
+
+
+# ------------------------------------------------------------------------------------------------
+# names placed at chosen message offsets (the 14-bit limit of a compression pointer and every bit below it)
+#
+# A compression pointer is 0xC000 | offset, so what Name.encode may record depends on the ABSOLUTE offset of every
+# suffix of every name, and what it writes on a dictionary hit exercises one bit pattern of the offset.  These cases
+# put one name (the "straddler") so that a chosen label of it starts at a chosen offset T = B + delta, B in
+# {2^14 (mostly), 2^15, 3*2^14, 2^16, 2^8..2^13, 0x3000, 0x3ff0, random}, and then use the name, its suffixes (same and
+# other case, with and without new labels in front) again later in the message, as owner names and inside RDATA
+# (compressed and uncompressed kinds), in the same and in later sections, with and without a size limit.
+# Fillers are written compactly in the case as z<N>[/<hexbyte>] (N copies of one byte), see _x.
+
+_MID = [b"straddle", b"zone", b"sub", b"Kz", b"m", b"w" * 63, b"v" * 30, b"\xc0\x0c", b"\x00\x01", b"cafe"]
+_FILL = ["00", "00", "00", "c0", "ff", "03", "2e", "41", "0c"]
+_NAME_TYPES = [2, 5, 12, 39, 15, 18, 6, 6, 14, 17, 250, 33, 35, 38]       # RDATA with a name (33/35/38: written uncompressed)
+_BOUNDS = [0x100, 0x200, 0x400, 0x800, 0x1000, 0x2000, 0x3000, 0x3FF0]
+
+
+def _xv(v):
+    if v[:1] != "z":
+        return v
+    n, _, b = v[1:].partition("/")
+    return "b" + ((b or "00") * int(n) if int(n) else "-")
+
+
+def _x(m):
+    """the case's message with the compact fillers z<N>[/<hexbyte>] written out as b<hex>"""
+    def xr(r):
+        return dict(r, v=[_xv(v) for v in r["v"]]) if any(v[:1] == "z" for v in r["v"]) else r
+    return dict(m, an=[xr(r) for r in m["an"]], ns=[xr(r) for r in m["ns"]], ad=[xr(r) for r in m["ad"]])
+
+
+def _clean_rr(rng, pool, types=None):
+    """a record that is well-formed in the statement's sense (in-range values, names of 1..63-byte labels)"""
+    for _ in range(50):
+        p2 = list(pool)
+        r = _rr(rng, p2)
+        if types is not None:
+            r["t"] = rng.choice(types)
+            r["pk"] = "k"
+            r["v"] = _vals(rng, r["t"], p2)
+        ok, names = D.rr_ok(r)
+        if ok and all(D.labels_ok(n) for n in names):
+            pool[:] = [n for n in p2 if D.labels_ok(n)]
+            return r
+    return {"n": hx(b"fallback.example"), "t": 1, "c": 1, "ttl": 1, "pk": "k", "v": ["b01020304"]}
+
+
+def _filler(rng, n, owner):
+    """a record without names whose RDATA has exactly n bytes"""
+    fb = rng.choice(_FILL)
+    kind = rng.choice(["null", "null", "wks", "sshfp", "unk"])
+    base = {"n": hx(owner), "c": 1, "ttl": rng.choice([0, 60]), "pk": "k"}
+    if kind == "wks" and n >= 5:
+        return dict(base, t=11, v=["b0a000001", "n6", f"z{n - 5}/{fb}"])
+    if kind == "sshfp" and n >= 2:
+        return dict(base, t=44, v=["n1", "n2", f"z{n - 2}/{fb}"])
+    if kind == "unk":
+        return dict(base, t=65280, pk="u", v=[f"z{n}/{fb}"])
+    return dict(base, t=10, v=[f"z{n}/{fb}"])
+
+
+def _flip(rng, n):
+    return bytes(c ^ 0x20 if (65 <= c <= 90 or 97 <= c <= 122) and rng.random() < 0.5 else c for c in n)
+
+
+def _wire(m):
+    msg = D.build_message(_x(m))
+    msg.maxSize = 0
+    return msg.toStr()
+
+
+def _split3(rng, recs):
+    a, b = sorted([rng.randint(0, len(recs)), rng.randint(0, len(recs))])
+    return recs[:a], recs[a:b], recs[b:]
+
+
+def _offset_case(rng, tier):
+    """see the comment above; falls back to an ordinary large message when the placement cannot be met"""
+    for _ in range(8):
+        c = _offset_case_try(rng, tier)
+        if c is not None:
+            return c
+    return _rt_case(rng, big=True)
+
+
+def _offset_case_try(rng, tier):
+    r = rng.random()
+    if r < 0.62:
+        B = 0x4000
+    elif r < 0.88:
+        B = rng.choice(_BOUNDS + [rng.randrange(0x60, 0x4000)])
+    elif r < 0.94 or tier == "quick" and r < 0.97:
+        B = rng.choice([0x8000, 0xC000])
+    else:
+        B = 0x10000
+    T = B + rng.choice([0, 0, 0, -1, 1, -2, 2, 3, 11, 12, 13, -12, rng.randint(-40, 40)])
+    pool = []
+    small = B < 0x800
+    q = [[hx(_name(rng, pool, 0)), rng.choice(TYPES), 1] for _ in range(rng.choice([0, 0, 1, 2]) if not small else 0)]
+    q = [x for x in q if D.labels_ok(unhx(x[0]))]
+    pool[:] = [n for n in pool if D.labels_ok(n)]
+    pre = [_clean_rr(rng, pool) for _ in range(rng.choice([0, 1, 1, 2, 3]) if not small else rng.choice([0, 0, 1]))]
+    # the straddler: a unique first label, one to three labels never used before it, then nothing / a known suffix
+    tok = b"s" + bytes(rng.choice(b"abcdefghijklmnop") for _ in range(rng.choice([0, 2, 4, 19, 62]))) + b"q"
+    mid = [rng.choice(_MID) for _ in range(rng.randint(1, 3))]
+    known = [n for n in pool if n]
+    tail = rng.choice(known).split(b".")[-rng.randint(1, 3):] if known and rng.random() < 0.4 else []
+    labels = [tok] + mid + tail
+    straddler = b".".join(labels)
+    # which part of it starts at T: a fresh label (mostly), the name itself, or what follows the fresh labels
+    # (the known suffix = a pointer, or the terminating zero byte)
+    w = rng.random()
+    j = 0 if w < 0.12 else 1 + len(mid) if w < 0.24 else rng.randint(1, len(mid))
+    S = T - sum(1 + len(l) for l in labels[:j])
+    # the record holding it
+    if rng.random() < 0.5:
+        rec = _clean_rr(rng, pool)
+        rec["n"] = hx(straddler)
+        where = "owner"
+    else:
+        rec = _clean_rr(rng, pool, _NAME_TYPES)
+        kinds = D.KINDS[rec["t"]]
+        if rec["t"] == 38:
+            p, sfx, _ = rec["v"][0][1:].split("/")
+            if int(p) == 0:
+                p, sfx = "64", "00" * 8 + sfx[16:]
+            rec["v"][0] = f"a{p}/{sfx}/{hx(straddler)}"
+        else:
+            i = rng.choice([i for i, k in enumerate(kinds) if k == "N"])
+            rec["v"][i] = "b" + hx(straddler)
+        where = f"rdata{rec['t']}"
+    # later uses: the suffix that starts at T (same case, mostly), then whatever _name makes of the straddler's suffixes
+    sfx = b".".join(labels[j if 1 <= j <= len(mid) else rng.choice([0, 1]) if j == 0 else len(mid):])
+    if rng.random() < 0.3:
+        sfx = _flip(rng, sfx)
+    if rng.random() < 0.3:
+        sfx = rng.choice(_LABELS[:9]) + b"." + sfx
+    if rng.random() < 0.5:
+        use = {"n": hx(sfx), "t": 1, "c": 1, "ttl": 7, "pk": "k", "v": ["b0a000002"]}
+    else:
+        use = {"n": hx(rng.choice(known + [b"u.example"])), "t": rng.choice([2, 5, 12, 15]), "c": 1, "ttl": 7, "pk": "k", "v": []}
+        use["v"] = (["n10"] if use["t"] == 15 else []) + ["b" + hx(sfx)]
+    pool2 = pool + [straddler] * 3 + [b".".join(labels[i:]) for i in range(1, len(labels))]
+    post = [_clean_rr(rng, pool2) for _ in range(rng.choice([0, 1, 2, 3]))]
+    post.insert(rng.randint(0, len(post)), use)
+    if rng.random() < 0.3:
+        post.append(dict(use, ttl=8))                          # the same use once more
+    # fillers: sized from the position the straddler has when they are empty
+    nfill = 2 if B >= 0x10000 else rng.choice([1, 1, 2])
+    fills = [_filler(rng, 0, rng.choice(known + [b"pad.example", b"f", b""])) for _ in range(nfill)]
+    before = pre + fills
+    rng.shuffle(before)
+    recs = before + [rec] + post
+    an, ns, ad = _split3(rng, recs)
+    m = {"q": q, "an": an, "ns": ns, "ad": ad}
+    m["hdr"] = [rng.randrange(65536), rng.choice([0, 1]), rng.randrange(16), 0, 0, rng.choice([0, 1]), rng.randrange(16), 0, 0, 0, 0]
+    pat = bytes([len(tok)]) + tok + bytes([len(mid[0])]) + mid[0]
+    try:
+        S0 = _wire(m).find(pat)
+    except Exception:
+        return None
+    need = S - S0
+    if S0 < 0 or need < 0 or need > 64000 * nfill:
+        return None
+    parts = [need] if nfill == 1 else [need // 2 + rng.randint(-min(200, need // 2), min(200, need // 2))]
+    if nfill == 2:
+        parts.append(need - parts[0])
+    for f, n in zip(fills, parts):
+        g = _filler(rng, n, unhx(f["n"]))
+        f.clear()
+        f.update(g)
+    try:
+        w = _wire(m)
+    except Exception:
+        return None
+    if w.find(pat) != S:                                       # (a filler's kind changed its fixed part: adjust once)
+        d = S - w.find(pat)
+        z = [v for v in fills[0]["v"] if v[:1] == "z"][0]
+        n, _, fb = z[1:].partition("/")
+        if int(n) + d < 0:
+            return None
+        fills[0]["v"][fills[0]["v"].index(z)] = f"z{int(n) + d}/{fb}"
+        try:
+            w = _wire(m)
+        except Exception:
+            return None
+        if w.find(pat) != S:
+            return None
+    full = len(w)
+    r = rng.random()
+    if r < 0.6:
+        size = 0
+    elif r < 0.7:
+        size = rng.choice([65535, full, full + 1])
+    elif r < 0.95:
+        size = max(12, rng.choice([full - 1, full - 2, T, T + 1, T + 2, T - 1, S, S + 1, rng.randint(S, full), rng.randint(S, full)]))
+    else:
+        size = 512
+    m["hdr"][8] = size
+    return {"op": "rt", "m": m, "at": f"{'%#x' % B}:{where}:{j}/{len(labels)}{'+ptr' if tail else ''}"}
+
+
+def _offset_corpus():
+    """fixed messages with a name at a chosen offset: a filler record (owner b"f": 3 + 10 bytes before its RDATA) puts the
+    next record at `start`"""
+    def rr(n, t, *v, ttl=60):
+        return {"n": hx(n), "t": t, "c": 1, "ttl": ttl, "pk": "k", "v": list(v)}
+
+    def at(start, recs, later=(), size=0, q=(), fb="00", note=""):
+        qs = [[hx(n), 1, 1] for n in q]
+        n = start - 25 - sum(len(x) + 6 for x in q)
+        return {"op": "rt", "at": note, "m": {"hdr": [0x1234, 1, 0, 0, 0, 0, 0, 0, size, 0, 0], "q": qs,
+                "an": [rr(b"f", 10, f"z{n}/{fb}")] + list(recs), "ns": [], "ad": list(later)}}
+    a = lambda n, ip="b0a000001": rr(n, 1, ip)  # noqa: E731
+    nb = lambda s: "b" + hx(s)  # noqa: E731
+    uses = [a(b"straddle.example", "b0a000002"), rr(b"bbbb.Straddle.example", 15, "n10", nb(b"mail.straddle.example"))]
+    out = []
+    # the owner name aaaa.straddle.example starts below 2^14; `straddle` / `example` / the final zero start at, just
+    # before and just after 2^14; then straddle.example, example and mail.straddle.example are used again
+    for start in (0x4000 - 5, 0x4000 - 6, 0x4000 - 4, 0x4000 - 14, 0x4000 - 13, 0x4000 - 22, 0x4000 - 1, 0x4000):
+        out.append(at(start, [a(b"aaaa.straddle.example")] + uses + [a(b"example", "b0a000003")], note=f"corpus:owner@{start:#x}"))
+    # ... with the re-use in a later section, with other filler bytes, and with a size limit cutting after / inside the re-use
+    out.append(at(0x4000 - 5, [a(b"aaaa.straddle.example")], later=uses, fb="c0", note="corpus:later-section"))
+    out.append(at(0x4000 - 5, [a(b"aaaa.straddle.example")] + uses, size=0x4000 + 40, note="corpus:cut-after"))
+    out.append(at(0x4000 - 5, [a(b"aaaa.straddle.example")] + uses, size=0x4000 + 2, note="corpus:cut-inside"))
+    # the straddling name inside RDATA: MX exchange (compressed), SOA rname, SRV target (written uncompressed: records nothing)
+    out.append(at(0x4000 - 20, [rr(b"x", 15, "n5", nb(b"mx.straddle.example"))] + uses, note="corpus:rdata-mx"))
+    out.append(at(0x4000 - 40, [rr(b"x", 6, nb(b"ns.zone.example"), nb(b"admin.straddle.example"), "n1", "i2", "i3", "i4", "n5")]
+                  + uses, note="corpus:rdata-soa"))
+    out.append(at(0x4000 - 24, [rr(b"x", 33, "n1", "n2", "n3", nb(b"sip.straddle.example"))] + uses, note="corpus:rdata-srv"))
+    # a pointer (to the question's name) whose two bytes start at 2^14 - 1 / 2^14; the name in front of it is used again
+    for start in (0x4000 - 6, 0x4000 - 5, 0x4000 - 7):
+        out.append(at(start, [a(b"aaaa.example.com"), a(b"aaaa.example.com", "b0a000002"), a(b"bb.aaaa.example.com")],
+                      q=[b"example.com"], note=f"corpus:ptr@{start + 5:#x}"))
+    # the largest pointer there is (target 2^14 - 1) and the first offset that has none
+    for start in (0x4000 - 1, 0x4000):
+        out.append(at(start, [a(b"last.example"), a(b"last.example", "b0a000002"), a(b"example", "b0a000003")], note=f"corpus:target@{start:#x}"))
+    # offsets that agree with an earlier name's offset in their low 14 bits: question name at 12, same-shaped name at 2^15 + 12
+    for start in (0x8000 + 12, 0xC000 + 12):
+        out.append(at(start, [a(b"bbbbbbb.org"), a(b"bbbbbbb.org", "b0a000002"), a(b"org", "b0a000003")], q=[b"example.com"],
+                      note=f"corpus:alias@{start:#x}"))
+    # the straddling name in the QUESTION section: 64 questions with long, pairwise unrelated names (a dictionary of 250 entries)
+    # put the question aaaa.straddle.example at 2^14 - 5; the answers use its suffixes
+    lab = lambda i, j, n: (b"%02d%d" % (i, j)).ljust(n, b"x")  # noqa: E731
+    qn = [b".".join([lab(i, 0, 63), lab(i, 1, 63), lab(i, 2, 63), lab(i, 3, 59)]) for i in range(63)]
+    qn.append(b".".join([lab(63, 0, 63), lab(63, 1, 63), lab(63, 2, 42)]))
+    out.append({"op": "rt", "at": "corpus:question-straddle", "m": {
+        "hdr": [0x1234, 1, 0, 0, 0, 0, 0, 0, 0, 0, 0], "q": [[hx(n), 1, 1] for n in qn + [b"aaaa.straddle.example"]],
+        "an": uses + [a(qn[5].split(b".", 1)[1], "b0a000004")], "ns": [], "ad": []}})
+    # a pointer target in every power-of-two band below 2^14 (each bit of the 14-bit offset)
+    for k in range(5, 14):
+        out.append(at((1 << k) + 1, [a(b"n%d.example" % k), a(b"n%d.example" % k, "b0a000002"), rr(b"w", 5, nb(b"example"))],
+                      note=f"corpus:target@{(1 << k) + 1:#x}"))
+    return out
 
 
 def corpus():
@@ -305,7 +592,7 @@ def corpus():
         {"op": "opt", "hdr": [4096, 0, 0, 1], "opts": [[3, hx(b"nsid")], [10, hx(b"\x01" * 8)]]},
         {"op": "dec", "data": (b"\x00" * 5 + b"\x01" + b"\x00" * 6 + b"\xc0\x0c\x00\x01\x00\x01").hex()},
         {"op": "dec", "data": ""},
-    ]
+    ] + _offset_corpus()
 
 
 def generate(rng, tier):
@@ -323,6 +610,20 @@ def generate(rng, tier):
             yield _dec_case(rng)
     for i in range(nbig):
         yield _rt_case(rng, big=True)
+    # names placed at chosen offsets: straddling 2^14 (and 2^15, 3*2^14, 2^16), pointer targets up to 2^14 - 1
+    for i in range(90 if tier == "quick" else 700):
+        yield _offset_case(rng, tier)
+    if tier != "quick":                          # every size limit from just before a name straddling 2^14 to the full size
+        for _ in range(20):
+            c = _offset_case_try(rng, tier)
+            if c is None or not c["at"].startswith("0x4000:") or c["at"].split(":")[2].startswith("0/"):
+                continue
+            full = _full_size(c["m"])
+            if full is None or full > 0x4000 + 140:
+                continue
+            for size in range(0x4000 - 30, full + 1):
+                yield dict(c, m=dict(c["m"], hdr=c["m"]["hdr"][:8] + [size] + c["m"]["hdr"][9:]))
+            break
     # the truncation clause at every cut point: maxSize = 12 .. full size, for a few well-formed messages
     nall = 2 if tier == "quick" else 12
     done = 0
@@ -349,14 +650,15 @@ def _msg_text(m):
 def model_line(c):
     op = c["op"]
     if op in ("rt", "edns"):
+        m = _x(c["m"])
         try:                                   # queue the real encoder's bytes for the batched RFC reader (oracle)
             if op == "rt":
-                D.rfc_want(D.build_message(c["m"]).toStr())
+                D.rfc_want(D.build_message(m).toStr())
             else:
-                D.rfc_want(D.build_edns(c["m"]).toStr())
+                D.rfc_want(D.build_edns(m).toStr())
         except Exception:
             pass
-        return f"{op} " + _msg_text(c["m"])
+        return f"{op} " + _msg_text(m)
     if op == "opt":
         return "opt " + " ".join([",".join(str(x) for x in c["hdr"])] + [f"{code}:{d}" for code, d in c["opts"]])
     if op == "dec":
@@ -384,7 +686,7 @@ def run_impl(c):
     op = c["op"]
     try:
         if op == "rt":
-            enc = D.build_message(c["m"]).toStr()
+            enc = D.build_message(_x(c["m"])).toStr()
             back = dns.Message()
             try:
                 back.fromStr(enc)
@@ -392,7 +694,7 @@ def run_impl(c):
                 return f"enc={hx(enc)} dec={_exc(e)}"
             return f"enc={hx(enc)} dec={D.show_message(back)}"
         if op == "edns":
-            enc = D.build_edns(c["m"]).toStr()
+            enc = D.build_edns(_x(c["m"])).toStr()
             back = dns._EDNSMessage()
             try:
                 back.fromStr(enc)
@@ -425,12 +727,29 @@ def _fail(key, detail):
     return {"key": key, "detail": detail[:400]}
 
 
+def _first_diff(got, exp):
+    """the first item (question / record) in which two canonical message texts differ, long hex runs shortened"""
+    g, e = got.split(" "), exp.split(" ")
+    i = next((i for i, (a, b) in enumerate(zip(g, e)) if a != b), min(len(g), len(e)))
+    sh = lambda x: x if len(x) <= 140 else f"{x[:100]}..({len(x)} chars)..{x[-20:]}"  # noqa: E731
+    what = ["header", "number of questions", "number of answers", "number of authority records", "number of additional records"]
+    what = what[i] if i < 5 else f"item {i - 5}"
+    return (f"{what}: got {sh(g[i]) if i < len(g) else '<nothing>'} expected {sh(e[i]) if i < len(e) else '<nothing>'}"
+            f" ({len(g) - 5} vs {len(e) - 5} items)")
+
+
+def _owners(msg):
+    """owner names per section, for a witness line"""
+    f = lambda l: "[" + ",".join(repr(x.name.name)[1:][:40] for x in l) + "]"  # noqa: E731
+    return f"q={f(msg.queries)} an={f(msg.answers)} ns={f(msg.authority)} ad={f(msg.additional)}"
+
+
 def _is_prefix(short, full):
     return len(short) <= len(full) and all(a == b for a, b in zip(short, full))
 
 
 def _oracle_rt(c):
-    m = c["m"]
+    m = _x(c["m"])
     inrange, names = D.msg_ok(m)
     if not inrange:
         return None
@@ -460,13 +779,13 @@ def _oracle_rt(c):
         back.maxSize = orig.maxSize
         if back != orig:
             key = "pointer-offset-over-2^14" if len(enc) > 16384 else "roundtrip"
-            return _fail(key, f"decode(encode(m)) != m: {D.show_message(back)[:150]} vs {D.case_text(m)[:150]}")
+            return _fail(key, f"decode(encode(m)) != m ({len(enc)} bytes): " + _first_diff(D.show_message(back), D.case_text(m)))
         exp = dict(m, hdr=m["hdr"][:8] + [0] + m["hdr"][9:])
         got = D.rfc_read(enc)
         if got != D.case_text(exp):
             a6 = any(r["t"] == 38 and r["pk"] == "k" and D.parse_val(r["v"][0])[0] % 8 for s in ("an", "ns", "ad") for r in m[s])
             key = "a6-suffix-octets" if a6 else "independent-reader"
-            return _fail(key, f"RFC 1035 reader sees {got[:200]} expected {D.case_text(exp)[:200]}")
+            return _fail(key, "RFC 1035 reader: " + _first_diff(got, D.case_text(exp)))
         return None
     if maxSize < 12:
         return None
@@ -483,12 +802,13 @@ def _oracle_rt(c):
         if len(b) < len(o) and any(len(b2) for b2, _ in secs[i + 1:]):
             ok = False
     if not ok:
-        return _fail("truncation-prefix", f"decoded truncated message is not a prefix: {D.show_message(back)[:200]}")
+        return _fail("truncation-prefix", f"message of {full} bytes cut to {len(enc)}: decoded {_owners(back)} is not a prefix of "
+                                          f"{_owners(orig)} (or a record differs)")
     return None
 
 
 def _oracle_edns(c):
-    m = c["m"]
+    m = _x(c["m"])
     inrange, names = D.msg_ok(m, edns=True)
     if not inrange or not all(D.labels_ok(n) for n in names):
         return None
@@ -546,6 +866,17 @@ def shrink(c):
             yield dict(c, m=dict(m, **{sec: m[sec][:i] + m[sec][i + 1:]}))
 
 
+def search(rng, tier, disagreeing):
+    """run when the tie or a proof breaks: names at chosen offsets (the compression dictionary's corner), large and
+    ordinary messages, every cut point of a few messages"""
+    for _ in range(400):
+        yield _offset_case(rng, "thorough")
+    for _ in range(40):
+        yield _rt_case(rng, big=True)
+    for _ in range(4000):
+        yield _rt_case(rng) if rng.random() < 0.8 else _dec_case(rng)
+
+
 def tag(c, out):
     op = c["op"]
     cls = "raise:" + out.split()[-1] if out.startswith("!") else ("dec-raise" if "dec=!" in out else "ok")
@@ -554,5 +885,9 @@ def tag(c, out):
         types = sorted({(r["t"] if r["pk"] == "k" else r["pk"]) for s in ("an", "ns", "ad") for r in m[s]}, key=str)
         comp = "c0" in out[:out.find(" dec=")] if " dec=" in out else False
         tr = out.startswith("enc=") and len(out) > 12 and (int(out[8:10], 16) & 2) != 0
-        return f"{op}:{'-'.join(str(t) for t in types[:4])}:{'ptr' if comp else 'noptr'}:{'tc' if tr else 'full'}:{cls}"
+        at = ""
+        if c.get("at"):                          # a name placed at a chosen offset: boundary, where it is, which part is there
+            a = c["at"].split(":")
+            at = ":@corpus" if a[0] == "corpus" else f":@{a[0] if int(a[0], 16) in _BOUNDS + [0x4000, 0x8000, 0xC000, 0x10000] else 'rnd'}:{a[1][:5]}:{a[2].split('/')[0]}"
+        return f"{op}:{'-'.join(str(t) for t in types[:4])}:{'ptr' if comp else 'noptr'}:{'tc' if tr else 'full'}:{cls}{at}"
     return f"{op}:{cls}"
